@@ -1009,6 +1009,63 @@ fn mutate_payload(rng: &mut Rng, p: &[u8]) -> Vec<u8> {
 }
 
 // ------------------------------------------------------------------------------------------------
+// type expressions of the universe of Model/SborTyped.lean and the relation "tid describes ty",
+// evaluated with the real `resolve_type_kind` / `resolve_type_validation`
+
+#[derive(Debug, Clone)]
+enum Ty { Bool, Int(u8), Str, Unit, Opt(Box<Ty>), Arr(Box<Ty>), Pair(Box<Ty>, Box<Ty>), Map(Box<Ty>, Box<Ty>), Res(Box<Ty>, Box<Ty>) }
+
+fn parse_ty(t: &[u64], pos: &mut usize) -> Option<Ty> {
+    let tag = *t.get(*pos)?;
+    *pos += 1;
+    Some(match tag {
+        0 => Ty::Bool,
+        1 => { let k = *t.get(*pos)?; *pos += 1; if k > 9 { return None; } Ty::Int(k as u8) }
+        2 => Ty::Str,
+        3 => Ty::Unit,
+        4 => Ty::Opt(Box::new(parse_ty(t, pos)?)),
+        5 => Ty::Arr(Box::new(parse_ty(t, pos)?)),
+        6 => { let a = parse_ty(t, pos)?; let b = parse_ty(t, pos)?; Ty::Pair(Box::new(a), Box::new(b)) }
+        7 => { let a = parse_ty(t, pos)?; let b = parse_ty(t, pos)?; Ty::Map(Box::new(a), Box::new(b)) }
+        8 => { let a = parse_ty(t, pos)?; let b = parse_ty(t, pos)?; Ty::Res(Box::new(a), Box::new(b)) }
+        _ => return None,
+    })
+}
+fn int_kind(k: u8) -> Kind {
+    [TypeKind::I8, TypeKind::I16, TypeKind::I32, TypeKind::I64, TypeKind::I128, TypeKind::U8, TypeKind::U16, TypeKind::U32, TypeKind::U64, TypeKind::U128][k as usize].clone()
+}
+fn describes_rs(s: &Sch, tid: LocalTypeId, ty: &Ty) -> bool {
+    let Some(k) = s.resolve_type_kind(tid) else { return false };
+    if s.resolve_type_validation(tid) != Some(&TypeValidation::None) {
+        return false;
+    }
+    match (ty, k) {
+        (Ty::Bool, TypeKind::Bool) | (Ty::Str, TypeKind::String) => true,
+        (Ty::Int(i), k) => *k == int_kind(*i),
+        (Ty::Unit, TypeKind::Tuple { field_types }) => field_types.is_empty(),
+        (Ty::Opt(t), TypeKind::Enum { variants }) => {
+            let v: Vec<_> = variants.iter().collect();
+            v.len() == 2 && *v[0].0 == 0 && v[0].1.is_empty() && *v[1].0 == 1 && v[1].1.len() == 1 && describes_rs(s, v[1].1[0], t)
+        }
+        (Ty::Arr(t), TypeKind::Array { element_type }) => describes_rs(s, *element_type, t),
+        (Ty::Pair(a, b), TypeKind::Tuple { field_types }) => field_types.len() == 2 && describes_rs(s, field_types[0], a) && describes_rs(s, field_types[1], b),
+        (Ty::Map(a, b), TypeKind::Map { key_type, value_type }) => describes_rs(s, *key_type, a) && describes_rs(s, *value_type, b),
+        (Ty::Res(a, b), TypeKind::Enum { variants }) => {
+            let v: Vec<_> = variants.iter().collect();
+            v.len() == 2 && *v[0].0 == 0 && v[0].1.len() == 1 && *v[1].0 == 1 && v[1].1.len() == 1 && describes_rs(s, v[0].1[0], a) && describes_rs(s, v[1].1[0], b)
+        }
+        _ => false,
+    }
+}
+/// registry types that belong to the universe, with their type expression
+const UNIVERSE: &[(&str, &str)] = &[
+    ("u8", "1 5"), ("i64", "1 3"), ("u128", "1 9"), ("bool", "0"), ("String", "2"), ("()", "3"),
+    ("(u8,String)", "6 1 5 2"), ("Vec<u8>", "5 1 5"), ("Vec<u32>", "5 1 7"), ("Option<String>", "4 2"),
+    ("Result<u8,String>", "8 1 5 2"), ("BTreeMap<String,u32>", "7 2 1 7"), ("Vec<(u32,bool)>", "5 6 1 7 0"),
+    ("BTreeSet<u16>", "5 1 6"),
+];
+
+// ------------------------------------------------------------------------------------------------
 // area c22
 
 pub struct A22;
@@ -1037,6 +1094,11 @@ impl Area for A22 {
                 let c = &reg[(i / 3) % reg.len()];
                 let (t, s) = c.schema();
                 writeln!(out, "{}", schema_line("schema", &s)).unwrap();
+                if let Some((_, ty)) = UNIVERSE.iter().find(|(n, _)| *n == c.name()) {
+                    writeln!(out, "desc {} {} {}", tid_str(&t), c.name(), ty).unwrap();
+                } else if rng.chance(1, 3) {
+                    writeln!(out, "desc {} - {}", tid_str(&t), rng.pick(UNIVERSE).1).unwrap();
+                }
                 emit_vals(rng, out, &s, &[t], 6, Some(&c.name()));
             } else {
                 let wild = i % 3 == 2;
@@ -1048,6 +1110,9 @@ impl Area for A22 {
                 if wild {
                     roots.push(LocalTypeId::SchemaLocalIndex(s.type_kinds.len() + 1));
                     roots.push(wk(rng.below(256) as u8));
+                }
+                if rng.chance(1, 3) {
+                    writeln!(out, "desc {} - {}", tid_str(rng.pick(&roots)), rng.pick(UNIVERSE).1).unwrap();
                 }
                 emit_vals(rng, out, &s, &roots, 6, None);
             }
@@ -1104,6 +1169,24 @@ impl Runner for R22 {
                     return Answer::fail(ans.clone(), format!("constructed-valid-rejected:{}", ans.replace(' ', "-")), "a value constructed to respect every kind and validation of the schema was rejected");
                 }
                 Answer::ok(ans)
+            }
+            Some("desc") if t.len() >= 5 => {
+                let Some(s) = self.s.clone() else { return Answer::ok("bad-op") };
+                let Some(tid) = parse_tid(t[1], t[2]) else { return Answer::ok("bad-op") };
+                let toks: Option<Vec<u64>> = t[4..].iter().map(|x| x.parse::<u64>().ok()).collect();
+                let Some(toks) = toks else { return Answer::ok("bad-op") };
+                let mut pos = 0;
+                let Some(ty) = parse_ty(&toks, &mut pos) else { return Answer::ok("bad-op") };
+                if pos != toks.len() { return Answer::ok("bad-op"); }
+                let r = describes_rs(&s, tid, &ty);
+                if let Some(c) = self.reg.iter().find(|c| c.name() == t[3]) {
+                    let (ct, cs) = c.schema();
+                    let expected = UNIVERSE.iter().find(|(n, _)| *n == t[3]).map(|(_, e)| *e == t[4..].join(" ")).unwrap_or(false);
+                    if expected && cs == s && ct == tid && !r {
+                        return Answer::fail(r.to_string(), format!("describe-shape:{}", c.name()), "the schema generated by Describe for this type does not have the shape its typed codec implies");
+                    }
+                }
+                Answer::ok(r.to_string())
             }
             Some("tval") if t.len() == 6 => {
                 let Some((s, depth, tid, p)) = val_common(&self.s, &t) else { return Answer::ok("bad-op") };
